@@ -16,15 +16,15 @@ CHECKS = {
    note="Quick tier is mutation-based only; inputs up to ~24 KB. The child has a 6 GiB address-space limit.",
    technique="runtime monitoring: crash/allocation/iteration/CPU monitors around the real reader on mutated inputs, process isolation per batch"),
  "C19": dict(level="exploration", design="5/C19",
-   text="The harness is built with -race. 16..32 goroutines run a PRNG-chosen mix of scans, seeks, ReadRef and RefsFor on ONE shared Reader (memory- and file-backed) and ONE shared Merged (raw and Stack.Merged()); every result is compared with the sequentially precomputed answer; the race detector's log (GORACE log_path, halt_on_error=0) is parsed by the driver and any report with a reftable frame is a violation (reports are deduplicated by the pair of outermost reftable functions).",
+   text="The harness is built with -race. 16..32 goroutines run a PRNG-chosen mix of scans, seeks, ReadRef and RefsFor on ONE shared Reader (memory- and file-backed) and ONE shared Merged (raw and Stack.Merged()); every result is compared with the answer computed sequentially on a SEPARATE object over the same bytes, so every shared object (4 fresh ones per kind and round) is cold when the goroutines, released by a barrier, first query it; the race detector's log (GORACE log_path, halt_on_error=0) is parsed by the driver and any report with a reftable frame is a violation (reports are deduplicated by the pair of outermost reftable functions).",
    note="The race detector only reports races that occur in the interleavings of this run; rounds are repeated. Concurrent use of one Stack or one Iterator is not promised and not exercised.",
    technique="Go race detector (-race) over a repeated concurrent read workload + result comparison against sequential answers"),
  "C04": dict(level="exploration", design="5/C04", engine="engineA",
-   text="2..4 real Stack handles run scripts on one real directory under a token-passing scheduler that decides, at every hooked filesystem call, which process goes next: pause sweeps (A parked before each of its filesystem operations while the others run) over ordered pairs of operation kinds and several initial stacks, nested sweeps over triples, and PCT/uniform random schedules. Oracles: M-commit on every rename onto tables.list (new view = old view, or old view + the committer's transaction), Add result <=> committed exactly once, final fresh view = fold of commits, porcupine linearizability check of the client-boundary history. Cross-validated by engine B: real worker processes with injected delays, a seqlock observer and kill -9, checked offline with the same oracles.",
+   text="2..4 real Stack handles run scripts on one real directory under a token-passing scheduler that decides, at every hooked filesystem call, which process goes next: pause sweeps (A parked before each of its filesystem operations while the others run) over ordered pairs of operation kinds and several initial stacks, nested sweeps over triples, and PCT/uniform random schedules. Oracles: M-commit on every rename onto tables.list (new view = old view, or old view + the committer's transaction), Add result <=> committed exactly once, final fresh view = fold of commits, porcupine linearizability check of the client-boundary history. Cross-validated by engine B: real worker processes with injected delays, a seqlock observer and kill -9, checked offline with the same oracles. I/O fault sweeps: every hooked filesystem operation of every call kind fails once with an injected error (removals exempt); the failed call is indeterminate but never partially visible, a call that still returns nil committed exactly its transaction. Sequential single-handle histories and the capacity-window family (records at the capacity of a block that become the first record of a compacted table): an Add or compaction by the only handle never fails.",
    note="Processes are goroutines of one OS process; in-memory code between two filesystem calls runs atomically (exact for separate processes, which share no memory). Real kernel semantics for O_EXCL/rename/unlink (tmpfs). Verdict covers the schedules actually run.",
    technique="runtime monitoring: online refinement monitor on hooked filesystem operations under a seeded scheduler + offline linearizability checking (porcupine) of recorded histories"),
  "C05": dict(level="exploration", design="5/C05", engine="engineA",
-   text="Same engine; after EVERY single filesystem operation of every process the directory is checked: tables.list parsed independently, every named file exists and passes the independent decoder, hash size matches, ranges strictly increase, a fresh NewStack succeeds and shows the last committed state; no listed table is ever removed. Workload biased to 2..3 concurrent compactions of disjoint/overlapping ranges.",
+   text="Same engine; after EVERY single filesystem operation of every process the directory is checked: tables.list parsed independently, every named file exists and passes the independent decoder, hash size matches, ranges strictly increase, a fresh NewStack succeeds and shows the last committed state; no listed table is ever removed. Workload biased to 2..3 concurrent compactions of disjoint/overlapping ranges. I/O fault sweeps with the per-operation directory check: a failed operation never publishes a list naming a missing or malformed table.",
    note="A process crash does not change the directory, so the state checked after operation k is the state a crash after k leaves. Same engine assumptions as C04.",
    technique="runtime monitoring: invariant checked at every hooked filesystem operation (independent list parser + decoder + fresh open) under seeded schedules"),
  "C06": dict(level="fault_enumeration", design="5/C06", engine="engineA",
@@ -36,13 +36,13 @@ CHECKS = {
    note="Same engine assumptions as C04. Does not require that compaction uses per-table locks at all, only observable exclusivity and ownership.",
    technique="runtime monitoring: ownership ledger on hooked lock-file operations under seeded schedules"),
  "C10": dict(level="exploration", design="5/C10", engine="engineA",
-   text="Same engine; after every completed call of a handle and at read calls placed between other processes' operations the handle's full scans, ReadRef and RefsFor must succeed, its table names must equal ONE recorded version of tables.list (not older than before) and the scans must equal a fresh reader's view of that version. Workload: the reading handle is paused at each hook of reload (after the list read, between table opens) while 1-3 others run sequences of Add + compaction.",
+   text="Same engine; after every completed call of a handle and at read calls placed between other processes' operations the handle's full scans, ReadRef and RefsFor must succeed, its table names must equal ONE recorded version of tables.list (not older than before) and the scans must equal a fresh reader's view of that version. Workload: the reading handle is paused at each hook of reload (after the list read, between table opens) while 1-3 others run sequences of Add + compaction. Also: sweeps in which the list shrinks without any new file (a prefix of the stack cancels out), and I/O fault sweeps (an error inside Add, compaction or reload leaves the handle with one consistent version).",
    note="Same engine assumptions as C04. Does not require that the handle sees the newest version.",
    technique="runtime monitoring: snapshot-consistency monitor (handle view vs. recorded list versions) under seeded schedules"),
  "C16": dict(level="exploration", design="5/C16", engine="engineA",
-   text="Same engine; M-own ledger of every file a process created or became responsible for (locks, temp tables, tables renamed into place but not yet listed, tables its commit dropped from the list): empty whenever the process returns from a call; at global quiescence the directory is exactly tables.list + listed tables (before and after closing the handles). Crash part: after another process was killed at every point of its operation, Clean/Close of a live process never remove a listed table, do not panic and succeed. Plus sequential multi-handle histories with failed Adds, stale compactions and empty stacks.",
+   text="Same engine; M-own ledger of every file a process created or became responsible for (locks, temp tables, tables renamed into place but not yet listed, tables its commit dropped from the list): empty whenever the process returns from a call; at global quiescence the directory is exactly tables.list + listed tables (before and after closing the handles). Crash part: after another process was killed at every point of its operation, Clean/Close of a live process never remove a listed table, do not panic and succeed. Plus sequential multi-handle histories with failed Adds, stale compactions and empty stacks. I/O fault sweeps: every hooked filesystem operation of every call kind fails once with an injected error (removals exempt); the failed call must still release every lock and temporary file it created.",
    note="Same engine assumptions as C04. A Clean that fails because it races with another live process's cleanup is not counted (the property only demands release of what was taken).",
-   technique="runtime monitoring: resource-ownership ledger checked at every idle point and at quiescence, with crash injection"),
+   technique="runtime monitoring: resource-ownership ledger checked at every idle point and at quiescence, with crash injection and I/O fault injection"),
  "C03": dict(level="exploration", design="5/C03",
    text="Table sets of 1..6 tables with increasing update-index ranges over a small overlapping key alphabet (updates, deletions, re-creations, log tombstones with old update indices) are read through the raw merged view and through Stack.Merged() over hand-placed files; full scans and seeks at every key class are compared with the newest-wins overlay computed from the inputs.",
    note="Trusts the generator and the overlay reference (gen/multi.go).",
